@@ -7,7 +7,7 @@ open Sucds Sucds.Driver
 def verdict (e : Exp) (ans : Option String) : String :=
   match ans with
   | none => "-"
-  | some a => match e.check a with
+  | some a => if a == "-" then "-" else match e.check a with
     | none => "-"
     | some true => "ok"
     | some false => "BAD"
